@@ -2158,3 +2158,20 @@ func Focus(fn *ssa.Function) (restore func()) {
 }
 
 var focusSet map[*ssa.Function]bool
+
+// IsProtoMessageType: t is the proto.Message interface or a (pointer to a) type with a ProtoReflect method.
+func IsProtoMessageType(t types.Type) bool {
+	if t == nil {
+		return false
+	}
+	if strings.HasSuffix(t.String(), "proto.Message") || strings.HasSuffix(t.String(), "protoreflect.ProtoMessage") {
+		return true
+	}
+	ms := types.NewMethodSet(t)
+	for i := 0; i < ms.Len(); i++ {
+		if ms.At(i).Obj().Name() == "ProtoReflect" {
+			return true
+		}
+	}
+	return false
+}
